@@ -52,6 +52,28 @@ def run(model=None, pkg_path=None):
     return res
 
 
+def emit_order(types_py, model):
+    """Def events of a types.py judged by EmitOrder.tla -> list of {c, pos}."""
+    from . import emit_order as eo
+    work = common.scratch("emit-")
+    try:
+        doc = eo.events(types_py)
+        tp = os.path.join(work, "emit.json")
+        json.dump(doc, open(tp, "w"))
+        n = len(doc["events"])
+        rc, out = common.run_tlc("EmitOrder", "CONSTANTS NEvents = %d\nINIT TInit\nNEXT Step\nPOSTCONDITION AllConsumed\nCHECK_DEADLOCK FALSE\n" % n,
+                                 env={"LSP_MODEL": model, "EMIT_TRACE": tp}, heap="2g")
+        if '"@DONE' not in out:
+            raise common.MachineryError("EmitOrder.tla did not consume the emission trace:\n" + out[-2500:])
+        fails = []
+        for f in common.tagged_lines(out, "@F"):
+            for c in f["c"]:
+                fails.append({"c": c, "pos": f["name"] + ("<-" + ",".join(sorted(f["missing"])) if f["missing"] else "")})
+        return fails, n
+    finally:
+        shutil.rmtree(work, ignore_errors=True)
+
+
 def add_to(rep, prop, res):
     for f in res["fails"]:
         if f["c"] in CLAUSES[prop] or (f["c"] == "I_import" and prop in ("C04", "C09")):
@@ -76,6 +98,11 @@ def check(prop, tier):
     rep.assumptions = ["harness/introspect.py reports attrs.fields / enum members / module attributes / catalogue dicts faithfully (type annotations as terms, validators by class name)",
                        "documented mapping of metamodel types to typing annotations as written in PyImage.tla (PyAnn)"]
     if prop == "C04":
+        # the emission order of the committed module (state machine D)
+        ef, nev = emit_order(os.path.join(common.REPO, "packages", "python", "lsprotocol", "types.py"), os.path.join(common.REPO, "generator", "lsp.json"))
+        for f in ef:
+            rep.violation({"clause": f["c"], "pos": f["pos"]}, f)
+        rep.coverage["emission_events_validated"] = nev
         # literal properties only accept their literal, wire names: decided on real objects by the codec pipeline
         from . import checks_codec, codec_check
         r = codec_check.run(tier)
